@@ -225,6 +225,32 @@ func c11Relayout(stmt string, kwCase int, sep string) string {
 	return sb.String()
 }
 
+// c11PadParens puts a blank after every "(" and before every ")" outside quoted text.
+func c11PadParens(stmt string) string {
+	var sb strings.Builder
+	var quote byte
+	for i := 0; i < len(stmt); i++ {
+		c := stmt[i]
+		switch {
+		case quote != 0:
+			if c == quote {
+				quote = 0
+			}
+			sb.WriteByte(c)
+		case c == '\'' || c == '"' || c == '`':
+			quote = c
+			sb.WriteByte(c)
+		case c == '(':
+			sb.WriteString("( ")
+		case c == ')':
+			sb.WriteString(" )")
+		default:
+			sb.WriteByte(c)
+		}
+	}
+	return sb.String()
+}
+
 // c11Tokenize splits a statement into tokens: quoted runs, words, and single punctuation bytes (blanks dropped).
 func c11Tokenize(stmt string) []string {
 	var out []string
@@ -370,7 +396,9 @@ func c11Stmts(tier string) []c11Stmt {
 		{"note = 'LIMIT 5'", "note == 'LIMIT 5'"}, {"note = 'ORDER BY x'", "note == 'ORDER BY x'"}, {"note = 'a WHERE b'", "note == 'a WHERE b'"},
 		{"note = 'FROM' OR a != 3", "note == 'FROM' || a != 3"}, {"note = 'GROUP BY k HAVING 1'", "note == 'GROUP BY k HAVING 1'"},
 		// a literal of one quote kind that contains the other kind (and keywords behind it)
-		{"note = 'say \"hi\" LIMIT 1'", "note == 'say \"hi\" LIMIT 1'"}, {"note = \"it's ORDER BY\" AND a > 0", "note == \"it's ORDER BY\" && a > 0"}}
+		{"note = 'say \"hi\" LIMIT 1'", "note == 'say \"hi\" LIMIT 1'"}, {"note = \"it's ORDER BY\" AND a > 0", "note == \"it's ORDER BY\" && a > 0"},
+		// text that looks like a call of an unknown function, inside literals
+		{"note = 'foo(x' OR note = \"bar(\"", "note == 'foo(x' || note == \"bar(\""}}
 	// direct queries
 	directItems := []struct{ items, names []string }{
 		{[]string{"a"}, []string{"a"}},
@@ -765,6 +793,20 @@ func (c11) Run(u fw.Unit) fw.Result {
 					if got := c11ConfigJSON(cfg) + "|" + normSpaces(cond); got != base {
 						a.fail(fmt.Sprintf("C11|layout|config-differs|case=%d|sep=%q", kc, sep), fmt.Sprintf("layout %q parses differently from %q", sql, canonical), map[string]any{"sql": sql, "canonical": canonical}, base, got)
 					}
+				}
+			}
+			// blanks inside every pair of parentheses ("( x )"), in two keyword cases
+			for kc := 0; kc < 2; kc++ {
+				sql := c11PadParens(s.layout(kc, " "))
+				cfg, cond, err, p := c11Parse(sql)
+				a.r.Evaluations++
+				a.r.Transitions++
+				if p != "" || err != nil {
+					a.fail("C11|layout|rejected", fmt.Sprintf("re-laid-out statement rejected (%v %s): %q", err, p, sql), map[string]any{"sql": sql, "canonical": canonical}, nil, nil)
+					continue
+				}
+				if got := c11ConfigJSON(cfg) + "|" + normSpaces(cond); noSpaces(got) != noSpaces(base) {
+					a.fail("C11|layout|config-differs|padded-parentheses", fmt.Sprintf("layout %q parses differently from %q", sql, canonical), map[string]any{"sql": sql, "canonical": canonical}, base, got)
 				}
 			}
 			// execution equivalence of two layouts for direct queries
